@@ -213,7 +213,8 @@ def register(props):
         "level_text": "Theorems (Properties/C01.v, all closed under the global context). C01_roundtrip, by induction on the fuel of the successful "
                       "Unserialize, for EVERY schema kind - int, float, string, bool, pattern, any, both enums, list, map, map-based object "
                       "(defaults, presence rules, one-property shorthand), reference, scope, nested in any way through scopes and namespaces, and "
-                      "one-of with a non-inlined discriminator (int or string keys; members objects / references / scopes): wf_schema, "
+                      "one-of (int or string keys; members objects / references / scopes) with a non-inlined discriminator or an inlined one of a "
+                      "plain type (int / int enum without units, string, un-named string enum): wf_schema, "
                       "distinct_in (schema-directed no-key-collision) and ints_in_range imply, at every fuel >= 2f, Validate ok, Serialize gives "
                       "w in strong wire form (swire), Unserialize w = n with plain equality (which implies equality up to map order), the same "
                       "after cbor_norm to any depth, re-Serialize gives w again. C01_serialize_emits_wire (any schema, any input), "
@@ -221,8 +222,9 @@ def register(props):
                       "without well-formedness / distinctness hypotheses). Refutations showing the hypotheses necessary: "
                       "C01_roundtrip_collision_refuted (D19), C01_roundtrip_oneof_any_refuted and C01_roundtrip_inlined_named_refuted (two "
                       "findings of the proof, both reproduced on the Go code: OneOf.Validate / Serialize reject what OneOf.Unserialize returned). "
-                      "STILL PARTIAL: one-of with an INLINED discriminator is outside the theorem (c01_scope); there and for struct-mapped "
-                      "objects the chain is carried by the correspondence + the direct check only.",
+                      "STILL PARTIAL: a one-of whose INLINED discriminator property has units or a named string type is outside the theorem "
+                      "(c01_scope; the statement is false there for named types); there and for struct-mapped objects the chain is carried by "
+                      "the correspondence + the direct check only.",
         "level_note": "Model = Schema/Ops.v + Schema/Cbor.v (cbor_norm), hand-written; the real fxamacker/cbor encode/decode is run on every "
                       "serialized form and compared with cbor_norm. The model's maps are ordered association lists, so the theorem's `=` is "
                       "stronger than the property's equality up to map order; Go's iteration order is covered by C12 (order independence under "
